@@ -94,10 +94,10 @@ PROPS = {
         "assumptions": ["charts carry one hook per event (nHooks = 1 in the correspondence; the theorems are for every nHooks)", "crash = process death: every later request and storage call of that operation fails, the next operation starts a fresh Configuration"],
     },
     "C03": {
-        "corr": [("actions", {"quick": 800, "thorough": 20000})],
-        "also": ["C01:model:"],
+        "corr": [("actions", {"quick": 800, "thorough": 20000}), ("kube", {"quick": 800, "thorough": 15000})],
+        "also": ["C01:model:", "C02:model:"],
         "trusted_base": [
-            "same model and harness as C01 (ledger model of install/upgrade/rollback/uninstall with a fault plan); containment is monitored on the implementation for every failed operation whose only fault is cluster-side",
+            "same model and harness as C01 (ledger model of install/upgrade/rollback/uninstall with a fault plan); containment is monitored on the implementation for every failed operation whose only fault is cluster-side; the cluster side (cleanup-on-fail, the automatic rollback of --atomic) is the cluster model of C02 (upgradeFull) compared with real failed upgrades over the simulated API server",
         ],
         "assumptions": ["a failure = one cluster-side phase failing (or the process dying there) with release storage itself working; storage-write failures are C01's finding success-with-storage-write-failure"],
     },
